@@ -194,6 +194,12 @@ def relabel(df, salt=0):
     else: df.index = [i // 2 for i in range(len(df))]
     return df
 
+def pandas_mode(i):
+    """every third case of an engine runs with pandas' copy-on-write mode on (optional in pandas 2.x, the only mode of pandas 3): a result that relies
+    on a column taken from a frame being a VIEW of it is right in one mode only"""
+    import pandas as pd
+    pd.set_option("mode.copy_on_write", i % 3 == 2)
+
 class Ctx:
     def __init__(self, prop, tier, seed):
         self.prop, self.tier, self.seed = prop, tier, seed
@@ -231,6 +237,10 @@ class Ctx:
 
     def fail(self, signature, case, detail):
         """an input on which the PROPERTY (not the correspondence) fails on the implementation"""
+        try:
+            import pandas as pd
+            if isinstance(case, dict) and pd.get_option("mode.copy_on_write"): case = dict(case, pandas_copy_on_write=True)
+        except Exception: pass
         m = re.fullmatch(r"[^/]+/known:(.+)", signature)
         if m:
             # a failure explained by recorded causes: every cause must be an open finding
